@@ -11,6 +11,10 @@ EXPRESSION_PARTS = (
     'or_test and_test not_test comparison '
     'expr xor_expr and_expr shift_expr arith_expr term factor power atom_expr'
 ).split()
+# Right hand sides that bind so weakly that they are always parenthesized when
+# they are inlined, e.g. `x = a if b else c` into `x if d else e`.
+_WEAKLY_BINDING = ('testlist_star_expr', 'yield_expr', 'star_expr',
+                   'namedexpr_test', 'lambdef', 'test')
 
 
 class ChangedFile:
@@ -220,8 +224,9 @@ def inline(inference_state, names):
         tree_name = name.tree_name
         path = name.get_root_context().py__file__()
         s = replace_code
-        if rhs.type == 'testlist_star_expr' \
+        if rhs.type in _WEAKLY_BINDING \
                 or tree_name.parent.type in EXPRESSION_PARTS \
+                or tree_name.parent.type == 'star_expr' \
                 or tree_name.parent.type == 'trailer' \
                 and tree_name.parent.get_next_sibling() is not None:
             s = '(' + replace_code + ')'
